@@ -450,6 +450,38 @@ theorem c13_late_clear_breaks :
     have r7 : Reach late (stepA s6) := Reach.step r6 (by decide)
     exact ⟨stepA s6, r7, by decide, by decide, by decide⟩
 
+/-! ### `co_await pause()` between yields
+
+The body scripts every theorem above quantifies over include `Act.pause` (`co_await cocls::pause()`, an awaitable that is never
+ready and resumes the body through its thread's coroutine queue).  For the consumer it is invisible: -/
+
+/-- a `pause` anywhere in the body changes neither what the consumer must see nor what the body does next: the sequence, end
+and exception position of `c13_sequence` / `c13_positions` / `c13_end_once` are those of the body without it.  (The pinned
+code ran a body that is read by ordinary code without a coroutine queue, where `pause` dereferences a null pointer:
+`c13_asis_pause_without_queue`, `/repo` commit 191263e.) -/
+theorem c13_pause_is_transparent (a b : List Act) :
+    expected (a ++ Act.pause :: b) = expected (a ++ b)
+    ∧ ∀ s : State, exec (Act.pause :: b) s = exec b { s with script := b } := by
+  refine ⟨?_, fun s => by simp [exec]⟩
+  induction a with
+  | nil => simp
+  | cons x a ih =>
+    cases x <;> simp_all [expected, yields, ending]
+
+/-- The pinned synchronous access (before `/repo` commit 191263e "fix: synchronous and future access to a generator ran its body
+without a coroutine queue"; replayed on the headers in corpus/c13_pause_in_body.txt): `bool(gen.next())` from ordinary code on a
+body that pauses before its first / between its first and second `co_yield` dereferences the null `coro_queue::instance`
+(`ub`, contradicting `c13_argument`'s `s.ub = false`): the consumer never sees the value.  The repaired access installs a
+queue: the consumer sees 1, 2, end. -/
+theorem c13_asis_pause_without_queue :
+    (stepSyncBeginAsIs (init false [.pause, .yield 1]) .plain 0).1.ub = true
+    ∧ (stepSyncBeginAsIs (init false [.yield 1, .pause, .yield 2]) .plain 0).1.ub = false
+    ∧ (stepSyncBeginAsIs (run (init false [.yield 1, .pause, .yield 2]) [.syncBegin 0, .syncEnd]) .plain 0).1.ub = true
+    ∧ (run (init false [.yield 1, .pause, .yield 2]) [.syncBegin 0, .syncEnd, .syncBegin 0, .syncEnd, .syncBegin 0, .syncEnd]).seen
+        = [.val 1, .val 2, .fin]
+    ∧ (run (init false [.yield 1, .pause, .yield 2]) [.syncBegin 0, .syncEnd, .syncBegin 0, .syncEnd, .syncBegin 0, .syncEnd]).ub
+        = false := by decide
+
 /-! ### the hypotheses are satisfiable: concrete non-trivial runs (kernel-evaluated) -/
 
 /-- a body that constructs a local, yields, waits for a pending operation, yields again and throws; the consumer mixes a
